@@ -8,6 +8,9 @@ def main(argv):
     sys.path.insert(0, HERE)
     from vlib import common, orderpass, shared
     from checks import crossapi
+    if os.environ.get('VERIF_AMBIENT') == 'debug-logging':
+        import logging
+        logging.basicConfig(level=logging.DEBUG, handlers=[logging.NullHandler()])
     common.bind_repo()
     evs, first_age = crossapi.events()
     targets = crossapi.TARGETS[argv[1]]
@@ -20,7 +23,7 @@ def main(argv):
     for c in calls:
         st.restore(pristine)
         out.append([repr(c[:3]), list(orderpass.outcome(c[:3]))])
-    print('INTERP-RESULT ' + json.dumps(dict(optimize=sys.flags.optimize, answers=out)))
+    print('INTERP-RESULT ' + json.dumps(dict(optimize=sys.flags.optimize, ambient=os.environ.get('VERIF_AMBIENT', ''), answers=out)))
     return 0
 
 
